@@ -63,6 +63,8 @@ func main() {
 		err = h.RunC17(*cases, *trace, *stats, *seed)
 	case "c18":
 		err = h.RunC18(*cases, *trace, *stats, *seed)
+	case "c07sm":
+		err = h.RunC07SM(*cases, *trace, *stats, *seed, *proj)
 	case "hist":
 		err = h.RunHist(*trace, *stats, h.HistDriverOpts{N: *n, Seed: *seed, Proj: *proj, Only: *only,
 			Opts: h.HistOpts{Blocks: *blocks, MaxOpsPerBlk: *maxops, Boundary: *boundary, GovOps: *gov, NoBadValues: *nobad, TimeJumps: *jumps,
